@@ -38,6 +38,19 @@ Case format:
        | {"k":"bag","m":[K..]} | {"k":"pair","m":[K1,K2(,K3)]} | {"k":"box","e":[ELEM..]}
        | {"k":"walk"|"hike","r":K,"o":K'}
   (a file may give "refs": [K..] instead of "elems": one `ref` element each).
+
+Two more worlds (round V09), told apart by "kind":
+  {"kind": "lib", ...}   textX's own postponing providers (ExtRelativeName / RelativeName): see c09_lib.py;
+  {"kind": "hist", "global": bool, "loader": "glob"|"import", "prov": ..,
+   "libs": [{"elems": [ELEM..]}..], "deps": [..], "how": [..],              (library files and the waits of their references)
+   "loads": [{"main": "str"|"file", "deps": [..], "how": [..], "probe": [..], "elems": [ELEM..]}, ..]}
+      a history of loads with ONE meta-model (global_repository=True or not).  The library files are registered with
+      a PlainNameGlobalRepo provider (glob; the main models may come from strings) or imported by every main model
+      (import).  Reference ids are unique over the history, the provider's tables are those of the whole history.
+      Load j is the ordinary case `Prop.hist_load(case, j)` (file 0 = main model, files 1.. = library) with
+      "cached": the library files an earlier successful load left finished in the global repository — their
+      references are resolved from the start and are not part of the load.  Expected: every load ends as its own
+      program says (a failed load leaves nothing behind); the Lean driver (`hist`) threads the finished files itself.
 """
 import os
 import re
@@ -45,6 +58,7 @@ import shutil
 import tempfile
 
 from harness.core import Check, use_repo
+from harness.props import c09_lib
 
 GRAMMAR = r"""
 Model: imports*=Import items*=Item elems*=Elem;
@@ -151,12 +165,15 @@ def holders(files):
     return out
 
 
-def render_file(i, f, hold=None):
+def render_file(i, f, hold=None, tag=None, import_names=None):
     """text of model file i and its reference attributes in textual order:
     [{"file", "path", "cls", "attr", "list", "refs": [[K, position]..]}]  (`hold` = holders(all files): needed
-    for the names of the elements walks go over)"""
-    text = "".join(f'import "f{j}.m"\n' for j in f["imports"])
-    text += f"item pad{i}\n"  # an empty file would yield a str model (outside C09)
+    for the names of the elements walks go over; histories: `tag` names the padding item, `import_names` = the
+    file names to import instead of f<j>.m)"""
+    if import_names is None:
+        import_names = [f"f{j}.m" for j in f["imports"]]
+    text = "".join(f'import "{n}"\n' for n in import_names)
+    text += f"item pad{i if tag is None else tag}\n"  # an empty file would yield a str model (outside C09)
     text += "".join(f"item t{r}\n" for r in file_refs(f) if r < OVER)
     attrs = []
 
@@ -233,6 +250,18 @@ def case_places(case):
     return places
 
 
+def cached_refs(case):
+    """references of model files that an earlier load of the history left finished in the global repository:
+    resolved from the start, not part of this load's pending references"""
+    return {r for i in case.get("cached", []) for r in file_refs(case["files"][i])}
+
+
+def live_attrs(case):
+    """the reference attributes of the files this load resolves (all but the cached ones)"""
+    gone = set(case.get("cached", []))
+    return [a for a in case_attrs(case) if a["file"] not in gone]
+
+
 def case_how(case):
     return {k: h for k, h in case.get("how", []) if h != "v"}
 
@@ -262,6 +291,9 @@ def expanded_deps(case, reachable):
     for k, e in walks.items():
         if k in places:
             out[k] = {r for _, _, r in walk_waits(e, hold, places)}
+    pre = cached_refs(case)
+    if pre:
+        out = {k: (w if w is None else w - pre) for k, w in out.items() if k not in pre}
     return out
 
 
@@ -316,15 +348,44 @@ def provider_keys(style):
     return sorted(set(keys))
 
 
-def make_mm(table, log, limit, style="exact", case=None):
+class LoadState:
+    """what the table-driven provider needs to know about the load that is running (a history runs several loads
+    with one meta-model: the state is swapped between them)"""
+
+    def __init__(self, case, limit):
+        self.set(case, limit)
+        self.log = []
+
+    def set(self, case, limit):
+        self.case = case
+        self.table = {i: d for i, d in case["deps"]} if case else {}
+        self.how = case_how(case) if case else {}
+        self.probes = {k: ds for k, ds in case.get("probe", [])} if case else {}
+        self.where = {}  # reference id -> (object, attribute name), filled with the first call
+        self.calls = 0
+        self.limit = limit
+        self.names = None  # file index -> base name of the model file (None: f<i>.m)
+        self.walk_of = {}
+        if case:
+            for r, (fi, fpath, e) in holders(case["files"]).items():
+                if e["k"] in WALKS:
+                    self.walk_of[elem_name(fi, e, fpath)] = e["r"]
+
+
+def make_mm(table, log, limit, style="exact", case=None, state=None, loader="import", global_repo=False, libs=()):
+    """meta-model with the table-driven provider; `state` (LoadState) holds the tables of the running load"""
     use_repo()
     import textx
     from textx import get_model, metamodel_from_str
     from textx.scoping import Postponed
     from textx.scoping import providers as sp
 
-    mm = metamodel_from_str(GRAMMAR)
-    calls = [0]
+    mm = metamodel_from_str(GRAMMAR, global_repository=True) if global_repo else metamodel_from_str(GRAMMAR)
+    st = state
+    if st is None:
+        st = LoadState(case, limit)
+        st.table = table
+        st.log = log
 
     def all_models(obj):
         m = get_model(obj)
@@ -349,28 +410,39 @@ def make_mm(table, log, limit, style="exact", case=None):
 
     from textx.scoping.tools import needs_to_be_resolved
 
-    how = case_how(case) if case else {}
-    probes = {k: ds for k, ds in case.get("probe", [])} if case else {}
-    where = {}  # reference id -> (object, attribute name), filled with the first call
+    def file_of(m):
+        """index of the model file in the running load's case (None: a model that is not part of it)"""
+        name = os.path.basename(m._tx_filename) if getattr(m, "_tx_filename", None) else None
+        if st.names is not None:
+            if name is None:  # a model loaded from a string: the padding item tells which one
+                items = getattr(m, "items", None) or [None]
+                name = "str:" + str(getattr(items[0], "name", None))
+            return st.names.get(name)
+        mt = re.fullmatch(r"f(\d+)\.m", name or "")
+        return int(mt.group(1)) if mt else None
 
     def locate(ms):
-        if where or not case:
+        if st.where or not st.case:
             return
-        byfile = {os.path.basename(m._tx_filename): m for m in ms}
-        for i, f in enumerate(case["files"]):
-            m = byfile.get(f"f{i}.m")
+        byfile = {}
+        for m in ms:
+            i = file_of(m)
+            if i is not None:
+                byfile.setdefault(i, m)
+        for i, f in enumerate(st.case["files"]):
+            m = byfile.get(i)
             if m is None:
                 continue
             for _, e, o in walk_elems(m.elems, file_elems(f), ()):
                 for a, _, rs in elem_attrs(e):
                     for r in rs:
-                        where[r] = (o, a)
+                        st.where[r] = (o, a)
 
     def unresolved(mode, asking, d):
         """does the resolver say that reference d is still to be resolved?"""
-        if d not in where:
+        if d not in st.where:
             return True
-        o, a = where[d]
+        o, a = st.where[d]
         if mode == "a":
             return needs_to_be_resolved(o, a)
         if mode == "o":
@@ -378,35 +450,40 @@ def make_mm(table, log, limit, style="exact", case=None):
         return get_model(asking)._tx_reference_resolver.has_unresolved_crossrefs(o, a)
 
     def provider(obj, attr, obj_ref):
-        calls[0] += 1
-        if calls[0] > limit:
-            raise NonTermination(f"provider called more than {limit} times")
+        st.calls += 1
+        if st.calls > st.limit:
+            raise NonTermination(f"provider called more than {st.limit} times")
         rid = int(obj_ref.obj_name[1:])
         ms = all_models(obj)
-        deps = table.get(rid, [])
-        mode = how.get(rid, "v")
-        if mode != "v" or rid in probes:
+        deps = st.table.get(rid, [])
+        mode = st.how.get(rid, "v")
+        if mode != "v" or rid in st.probes:
             locate(ms)
-        for d in probes.get(rid, []):
-            if d in where:
-                needs_to_be_resolved(*where[d])
+        for d in st.probes.get(rid, []):
+            if d in st.where:
+                needs_to_be_resolved(*st.where[d])
         if deps and mode != "v":
             if any(unresolved(mode, obj, d) for d in deps):
-                log.append(["postponed", rid])
+                st.log.append(["postponed", rid])
                 return Postponed()
         elif deps:
             done = resolved_now(ms)
             if any(d not in done for d in deps):
-                log.append(["postponed", rid])
+                st.log.append(["postponed", rid])
                 return Postponed()
         for m in ms:
             for it in m.items:
                 if it.name == obj_ref.obj_name:
-                    log.append(["resolved", rid])
+                    st.log.append(["resolved", rid])
                     return it
         return None
 
-    plain = sp.PlainNameImportURI()
+    if loader == "glob":
+        plain = sp.PlainNameGlobalRepo()
+        for pat in libs:  # one pattern per library file: the order of loading is the order given
+            plain.register_models(pat)
+    else:
+        plain = sp.PlainNameImportURI()
     providers = {"*.*": plain}
     for k in provider_keys(style):
         providers[k] = provider
@@ -416,31 +493,26 @@ def make_mm(table, log, limit, style="exact", case=None):
     from textx.scoping.rrel import create_rrel_scope_provider
 
     rrel = create_rrel_scope_provider(RREL)
-    walk_of = {}
-    if case:
-        for r, (fi, fpath, e) in holders(case["files"]).items():
-            if e["k"] in WALKS:
-                walk_of[elem_name(fi, e, fpath)] = e["r"]
 
     def count():
-        calls[0] += 1
-        if calls[0] > limit:
-            raise NonTermination(f"provider called more than {limit} times")
+        st.calls += 1
+        if st.calls > st.limit:
+            raise NonTermination(f"provider called more than {st.limit} times")
 
     def over_provider(obj, attr, obj_ref):
         count()
         res = plain(obj, attr, obj_ref)
-        if res is not None and type(res) is not Postponed and obj.name in walk_of:
-            log.append(["resolved", OVER + walk_of[obj.name]])
+        if res is not None and type(res) is not Postponed and obj.name in st.walk_of:
+            st.log.append(["resolved", OVER + st.walk_of[obj.name]])
         return res
 
     def end_provider(obj, attr, obj_ref):
         count()
         res = rrel(obj, attr, obj_ref)
         if type(res) is Postponed:
-            log.append(["postponed", int(obj_ref.obj_name[1:])])
+            st.log.append(["postponed", int(obj_ref.obj_name[1:])])
         elif res is not None:
-            log.append(["resolved", int(obj_ref.obj_name[1:])])
+            st.log.append(["resolved", int(obj_ref.obj_name[1:])])
         return res
 
     providers["Walk.over"] = providers["Hike.over"] = over_provider
@@ -504,9 +576,13 @@ class Prop(Check):
         "Resolve.C09_any_provider_partition",
         "Resolve.C09_loop_is_oracle",
         "Resolve.C09_nonmono_order_false",
+        "Resolve.C09_history_indep",
+        "Resolve.C09_history_failed_load",
+        "Resolve.C09_history_clean",
+        "Resolve.C09_history_local",
     ]
     DRIVER = "Drivers/Resolve.lean"
-    QUICK_CASES = 480
+    QUICK_CASES = 540
     THOROUGH_CASES = 8000
     PROCS_QUICK = 3
     RULE = ("dependency tables over <=10 references (chains, cycles, self-waits, waits for absent references, DAGs along a "
@@ -516,18 +592,36 @@ class Prop(Check):
             "as Class.attr / *.attr / Class.*; the provider of a waiting reference learns that a reference is resolved "
             "from the model (attribute value) or from the resolver (needs_to_be_resolved per attribute / per object, "
             "has_unresolved_crossrefs of the asking model's resolver; one way per case or per reference), optional "
-            "queries without effect; non-trivial = at least one reference is postponed at least once")
+            "queries without effect; + textX's own postponing providers (ExtRelativeName / RelativeName over classes with "
+            "multiple inheritance, overridden methods, method names containing each other, instances and calls, 1..3 files, "
+            "table-driven waits of the extends/type/inst references incl. cycles); + histories of 2..4 loads with one "
+            "meta-model (global repository or not, library files registered with PlainNameGlobalRepo or imported, main "
+            "models from strings or files, about half of the loads unresolvable, waits reaching into the library); "
+            "non-trivial = at least one reference is postponed at least once")
     MODELLED = ("hand-modelled: model.py:935-968 loop and resolve_one_step pass (Resolve.step/loop) and its list branch "
                 "(Resolve.attrAfter: bisect insertion, one position list per object and attribute), "
                 "ReferenceResolver.has_unresolved_crossrefs / scoping.tools.needs_to_be_resolved (Resolve.hasUnresolved, "
                 "stepQ/roundQ/loopQ: parser._crossrefs replaced at the end of a pass, one list per model file); tie X: resolution "
                 "sequence + pending set + content of every list attribute vs real resolver with a table-driven provider; "
+                "model.py:1030-1100 what a load does with the repository (ResolveHist.runH: all models carrying a resolver are "
+                "stepped, a failed load removes them, a successful one drops the resolvers); ExtRelativeName / RelativeName "
+                "are not modelled: their waits are handed to loopQ as resolver queries (needs_to_be_resolved per class "
+                "of the linearisation), their targets are decided by the direct oracle; "
                 "not exhibited: providers that are not monotone in the resolved set, providers attached in the grammar (RREL)")
     ASSUMPTIONS = ["scope providers are monotone in the set of resolved references (the property's 'given the ones resolved before it')"]
 
     # ------------------------------------------------------------------ generator
     def gen(self, rng, n, tier):
         for _ in range(n):
+            # three worlds: one load with the table-driven provider (below), textX's own postponing providers
+            # (ExtRelativeName / RelativeName, c09_lib.py), histories of loads with one meta-model
+            world = rng.weighted([("plain", 74), ("lib", 13), ("hist", 13)])
+            if world == "lib":
+                yield c09_lib.gen_one(rng)
+                continue
+            if world == "hist":
+                yield self.gen_hist(rng)
+                continue
             profile = rng.weighted([("mixed", 5), ("lists", 5), ("scalar", 2)])
             case = self.gen_one(rng, profile)
             # how the providers learn that a reference is resolved: from the model (attribute values), from the
@@ -722,6 +816,10 @@ class Prop(Check):
 
     # ------------------------------------------------------------------ implementation
     def impl(self, case):
+        if case.get("kind") == "lib":
+            return c09_lib.impl(case)
+        if case.get("kind") == "hist":
+            return self.hist_impl(case)
         use_repo()
         from textx.exceptions import TextXError
 
@@ -777,11 +875,21 @@ class Prop(Check):
 
     def order(self, case):
         files = case["files"]
-        return [r for i in file_order(files) for r in file_refs(files[i])]
+        gone = set(case.get("cached", []))
+        return [r for i in file_order(files) if i not in gone for r in file_refs(files[i])]
 
     # ------------------------------------------------------------------ model tie
     def model_req(self, case, obs):
-        lists = [a["refs"] for a in case_attrs(case) if a["list"]]
+        if case.get("kind") == "lib":
+            return c09_lib.model_req(case, obs)
+        if case.get("kind") == "hist":
+            return self.hist_model_req(case, obs)
+        return self.load_model_req(case, obs)
+
+    def load_model_req(self, case, obs):
+        lists = [a["refs"] for a in live_attrs(case) if a["list"]]
+        gone = set(case.get("cached", []))
+        pre = cached_refs(case)
         how = case_how(case)
         hold = holders(case["files"])
         walks = {e["r"]: e for _, _, e in hold.values() if e["k"] in WALKS}
@@ -792,11 +900,13 @@ class Prop(Check):
         seen = {} if hiking or obs.get("outcome") not in ("ok", "unresolvable") else {"obs_seq": obs["seq"]}
         if not how and not walks:
             # file by file: the model runs one pending list per model file, stepped in turn (`loopFiles`)
-            per_file = [file_refs(case["files"][f]) for f in file_order(case["files"])]
-            return {"op": "resolve", "refs": self.order(case), "deps": case["deps"], "lists": lists,
+            per_file = [file_refs(case["files"][f]) for f in file_order(case["files"]) if f not in gone]
+            own = set(self.order(case))
+            deps = [[k, [d for d in ds if d not in pre]] for k, ds in case["deps"] if k in own]
+            return {"op": "resolve", "refs": self.order(case), "deps": [[k, ds] for k, ds in deps if ds], "lists": lists,
                     "files": per_file, **seen}
         # providers that ask the resolver: the `_crossrefs` list of every model file takes part
-        order = file_order(case["files"])
+        order = [f for f in file_order(case["files"]) if f not in gone]
         slot = {f: n for n, f in enumerate(order)}
         places = case_places(case)
         files = [[[r, places[r][1], places[r][2]] for r in file_refs(case["files"][f])] for f in order]
@@ -805,12 +915,15 @@ class Prop(Check):
             if k in places and places[k][0] in slot:
                 ws = [[1, slot[places[r][0]], o, n] for o, n, r in walk_waits(e, hold, places) if places[r][0] in slot]
                 waits.append([k, [w for n, w in enumerate(ws) if w not in ws[:n]]])
+        own = set(self.order(case))
         for k, ds in case["deps"]:
-            if k in walks:
+            if k in walks or k not in own:
                 continue
             ws = []
             for d in ds:
                 p = places.get(d)
+                if d in pre:
+                    continue  # (a reference of a finished model: resolved, nothing pending about it)
                 if how.get(k, "v") == "v" or p is None or p[0] not in slot:
                     ws.append([0, d])  # (a reference that is not there never resolves)
                 elif how[k] == "o":
@@ -821,13 +934,19 @@ class Prop(Check):
         return {"op": "resolveq", "files": files, "waits": waits, "lists": lists, **seen}
 
     def compare(self, case, obs, out):
+        if case.get("kind") == "hist":
+            return self.hist_compare(case, obs, out)
+        return self.load_compare(case, obs, out)
+
+    def load_compare(self, case, obs, out):
+        lib = case.get("kind") == "lib"
         if "err" in out:
             return f"model rejected the request: {out}"
         if obs["outcome"] not in ("ok", "unresolvable"):
             return f"implementation outcome {obs['outcome']} but model terminates with pending={out['pending']}"
         if sorted(obs["pending"]) != sorted(out["pending"]):
             return f"pending references differ: impl {sorted(obs['pending'])} model {sorted(out['pending'])}"
-        hikes = {e["r"] for _, _, e in holders(case["files"]).values() if e["k"] == "hike"}
+        hikes = set() if lib else {e["r"] for _, _, e in holders(case["files"]).values() if e["k"] == "hike"}
         mseq = [r for r in out["seq"] if r not in hikes]  # (a provider attached in the grammar is not observed)
         if obs["seq"] != mseq:
             return f"resolution sequence differs: impl {obs['seq']} model {mseq}"
@@ -842,18 +961,44 @@ class Prop(Check):
         if "pending_files" in out and [r for f in out["pending_files"] for r in f] != out["pending"]:
             return "model: pending references per file do not add up"
         if obs["outcome"] == "ok" and "values" in obs:
-            attrs = case_attrs(case)
-            got = [v for a, v in zip(attrs, obs["values"]) if a["list"]]
+            if lib:
+                attrs = c09_lib.case_attrs(case)
+                got = c09_lib.list_ids(case, obs)
+            else:
+                gone = set(case.get("cached", []))
+                attrs = [a for a in case_attrs(case) if a["file"] not in gone]
+                got = [v for a, v in zip(case_attrs(case), obs["values"]) if a["list"] and a["file"] not in gone]
             if got != out["lists"]:
                 for a, g, w in zip([a for a in attrs if a["list"]], got, out["lists"]):
                     if g != w:
-                        return (f"list attribute {a['cls']}.{a['attr']} of element {a['path']} in file {a['file']}: "
+                        return (f"list attribute {a['cls']}.{a['attr']} of element {a.get('path', a.get('obj'))} in file {a['file']}: "
                                 f"implementation {g}, model {w}")
                 return f"list attributes differ: implementation {got}, model {out['lists']}"
         return None
 
     # ------------------------------------------------------------------ direct oracle
     def oracle(self, case, obs):
+        if case.get("kind") == "lib":
+            return c09_lib.oracle(case, obs)
+        if case.get("kind") == "hist":
+            return self.hist_oracle(case, obs)
+        return self.load_oracle(case, obs)
+
+    def spec_dead(self, case):
+        """the references of the load that no order of resolving can resolve (least fixpoint, no model)"""
+        table = expanded_deps(case, set(file_order(case["files"])))
+        refs = self.order(case)
+        lfp, changed = set(), True
+        while changed:
+            changed = False
+            for r in refs:
+                want = table.get(r, set())
+                if r not in lfp and want is not None and want <= lfp:
+                    lfp.add(r)
+                    changed = True
+        return sorted(set(refs) - lfp)
+
+    def load_oracle(self, case, obs):
         # spec: least fixpoint of "all dependencies resolved"
         table = expanded_deps(case, set(file_order(case["files"])))
         refs = self.order(case)
@@ -870,6 +1015,9 @@ class Prop(Check):
             return "loading does not terminate: " + obs["msg"]
         if obs["outcome"] in ("error", "other"):
             return f"unexpected failure {obs.get('type')}: {obs.get('msg')}"
+        foreign = sorted(set(obs.get("seq", [])) - set(refs))
+        if foreign:
+            return f"the load resolved the references {foreign}, which are not references of the loaded program {sorted(refs)}"
         if not dead:
             if obs["outcome"] != "ok":
                 return f"every reference is resolvable in some order but loading failed naming {obs['pending']}"
@@ -896,12 +1044,268 @@ class Prop(Check):
                 return f"error names {sorted(obs['pending'])}, unresolvable are exactly {dead}"
         return None
 
+    # ------------------------------------------------------------------ histories: several loads, one meta-model
+    @staticmethod
+    def hist_load(case, j, cached=()):
+        """load j of a history as an ordinary case: file 0 = the main model, files 1.. = the library files
+        (glob: registered with the provider; import: imported by the main model); `cached` = library files an
+        earlier successful load left finished in the global repository"""
+        ld = case["loads"][j]
+        libs = case.get("libs", [])
+        # the provider's tables are those of the whole history (reference ids are unique over it): a reference
+        # behaves the same in whichever load it is asked about
+        others = [x for n, l in enumerate(case["loads"]) if n != j for x in l["deps"]]
+        c = {"deps": [list(x) for x in case.get("deps", [])] + [list(x) for x in ld["deps"]] + [list(x) for x in others],
+             "prov": case.get("prov", "exact"),
+             "files": [{"imports": list(range(1, len(libs) + 1)), "elems": ld["elems"]}]
+                      + [{"imports": [], "elems": lib["elems"]} for lib in libs]}
+        how = [list(x) for x in case.get("how", [])] + [list(x) for x in ld.get("how", [])]
+        how += [list(x) for n, l in enumerate(case["loads"]) if n != j for x in l.get("how", [])]
+        if how:
+            c["how"] = how
+        if ld.get("probe"):
+            c["probe"] = ld["probe"]
+        if cached:
+            c["cached"] = sorted(cached)
+        return c
+
+    def hist_expected(self, case):
+        """per load: (the load as an ordinary case, references no order can resolve) — decided from the programs
+        alone: a failed load leaves nothing behind, a successful one (global repository) its finished files"""
+        out, cached = [], set()
+        for j in range(len(case["loads"])):
+            c = self.hist_load(case, j, cached if case.get("global") else ())
+            dead = self.spec_dead(c)
+            out.append((c, dead))
+            if case.get("global") and not dead:
+                cached |= set(range(1, len(case.get("libs", [])) + 1))
+        return out
+
+    def hist_impl(self, case):
+        use_repo()
+        from textx.exceptions import TextXError
+
+        libs = case.get("libs", [])
+        glob = case.get("loader") == "glob"
+        tmp = tempfile.mkdtemp(prefix="c09h_")
+        st = LoadState(None, 0)
+        outs = []
+        try:
+            libnames = [f"lib{i}.m" for i in range(len(libs))]
+            mm = make_mm(None, None, 0, style=case.get("prov", "exact"), state=st, loader="glob" if glob else "import",
+                         global_repo=bool(case.get("global")), libs=[os.path.join(tmp, n) for n in libnames])
+            for i, lib in enumerate(libs):
+                with open(os.path.join(tmp, libnames[i]), "w") as fh:
+                    fh.write(render_file(i + 1, {"imports": [], "elems": lib["elems"]}, {}, tag=f"lib{i}")[0])
+            for j, ld in enumerate(case["loads"]):
+                c = self.hist_load(case, j)
+                nrefs = sum(len(file_refs(f)) for f in c["files"])
+                st.set(c, (nrefs + 3) * (nrefs + 1) + 5)
+                st.log = []
+                from_str = ld.get("main") == "str"
+                mname = f"m{j}.m"
+                st.names = {("str:padm%d" % j if from_str else mname): 0}
+                st.names.update({n: i + 1 for i, n in enumerate(libnames)})
+                text = render_file(0, c["files"][0], {}, tag=f"m{j}", import_names=[] if glob else libnames)[0]
+                try:
+                    try:
+                        if from_str:
+                            model = mm.model_from_str(text)
+                        else:
+                            with open(os.path.join(tmp, mname), "w") as fh:
+                                fh.write(text)
+                            model = mm.model_from_file(os.path.join(tmp, mname))
+                        out = {"outcome": "ok", "pending": []}
+                        byfile = {0: model}
+                        if hasattr(model, "_tx_model_repository"):
+                            for m in model._tx_model_repository.all_models:
+                                name = os.path.basename(m._tx_filename) if getattr(m, "_tx_filename", None) else None
+                                if name in libnames:
+                                    byfile[libnames.index(name) + 1] = m
+                        values = []
+                        try:
+                            for i, f in enumerate(c["files"]):
+                                m = byfile.get(i)
+                                if m is None:
+                                    raise ValueError(f"model file {i} of the load is not in the repository")
+                                for path, e, o in walk_elems(m.elems, file_elems(f), ()):
+                                    for attr, is_list, _ in elem_attrs(e):
+                                        v = getattr(o, attr, None)
+                                        if is_list:
+                                            values.append([item_id(x) for x in v] if isinstance(v, list) else "not-a-list")
+                                        else:
+                                            values.append(None if v is None else item_id(v))
+                            out["values"] = values
+                        except ValueError as e:
+                            out["shape"] = str(e)
+                    except NonTermination as e:
+                        out = {"outcome": "nonterm", "msg": str(e)}
+                    except TextXError as e:
+                        msg = str(e)
+                        if "Unresolvable cross references" in msg:
+                            out = {"outcome": "unresolvable",
+                                   "pending": [int(x) for x in re.findall(r'"t(\d+)" of class', msg)]}
+                        else:
+                            out = {"outcome": "error", "msg": msg[:200], "type": type(e).__name__}
+                except Exception as e:  # any other exception type is an observation, too
+                    out = {"outcome": "other", "type": type(e).__name__, "msg": str(e)[:200]}
+                out["seq"] = [r[1] for r in st.log if r[0] == "resolved"]
+                out["postponed"] = sum(1 for r in st.log if r[0] == "postponed")
+                outs.append(out)
+        finally:
+            shutil.rmtree(tmp, ignore_errors=True)
+        return {"loads": outs}
+
+    def hist_oracle(self, case, obs):
+        for j, ((c, dead), o) in enumerate(zip(self.hist_expected(case), obs["loads"])):
+            f = self.load_oracle(c, o)
+            if f:
+                before = [x["outcome"] for x in obs["loads"][:j]]
+                return (f"load {j + 1} of {len(case['loads'])} with one meta-model (earlier loads ended {before}; the outcome "
+                        f"of a load depends on its own program only): {f}")
+        return None
+
+    def hist_model_req(self, case, obs):
+        loads = []
+        for j, ((c, dead), o) in enumerate(zip(self.hist_expected(case), obs["loads"])):
+            if o.get("outcome") not in ("ok", "unresolvable"):
+                return None
+            gone = set(c.get("cached", []))
+            keys = [100 + j if f == 0 else f - 1 for f in file_order(c["files"]) if f not in gone]
+            loads.append({"keys": keys, "req": self.load_model_req(c, o)})
+        return {"op": "hist", "global": bool(case.get("global")), "loads": loads}
+
+    def hist_compare(self, case, obs, out):
+        if "err" in out:
+            return f"model rejected the request: {out}"
+        exp = self.hist_expected(case)
+        if len(out.get("outs", [])) != len(exp):
+            return f"model answered {len(out.get('outs', []))} loads of {len(exp)}"
+        for j, ((c, dead), o, m, cached) in enumerate(zip(exp, obs["loads"], out["outs"], out["cached"])):
+            # the files the model's repository holds finished before load j = the ones the request left out
+            want = sorted(f - 1 for f in c.get("cached", []))
+            if sorted(k for k in cached if k < 100) != want:
+                return (f"load {j + 1}: the model's repository holds the library files {sorted(cached)} finished, "
+                        f"the request was built for {want}")
+            d = self.load_compare(c, o, m)
+            if d:
+                return f"load {j + 1} of the history: {d}"
+        return None
+
+    def hist_shrink(self, case):
+        import copy
+
+        loads = case["loads"]
+        libs = case.get("libs", [])
+
+        def tidy(c):
+            have = {r for lib in c.get("libs", []) for r in file_refs(lib)}
+            c["deps"] = [[k, ds] for k, ds in c.get("deps", []) if k in have]
+            c["how"] = [[k, h] for k, h in c.get("how", []) if k in have and any(k == i for i, _ in c["deps"])]
+            for ld in c["loads"]:
+                own = set(file_refs({"elems": ld["elems"]}))
+                ld["deps"] = [[k, ds] for k, ds in ld["deps"] if k in own and ds]
+                ld["how"] = [[k, h] for k, h in ld.get("how", []) if any(k == i for i, _ in ld["deps"])]
+                ld["probe"] = [[k, ds] for k, ds in ld.get("probe", []) if k in own]
+            return c
+
+        for j in range(len(loads)):  # one load less
+            if len(loads) > 1:
+                c = copy.deepcopy(case)
+                del c["loads"][j]
+                yield tidy(c)
+        for i in range(len(libs)):  # a library file without references
+            if libs[i]["elems"]:
+                c = copy.deepcopy(case)
+                c["libs"][i]["elems"] = []
+                yield tidy(c)
+        if libs and not any(lib["elems"] for lib in libs) and case.get("loader") == "glob" and len(libs) > 1:
+            c = copy.deepcopy(case)
+            c["libs"] = libs[:1]
+            yield tidy(c)
+        for j, ld in enumerate(loads):  # one reference less / one wait less / plain providers
+            ids = sorted(r for r in file_refs({"elems": ld["elems"]}) if r < OVER)
+            for x in ids:
+                if len(ids) > 1:
+                    c = copy.deepcopy(case)
+                    c["loads"][j]["elems"] = self._without(ld["elems"], x)
+                    for l2 in c["loads"]:
+                        l2["deps"] = [[k, [d for d in ds if d != x]] for k, ds in l2["deps"]]
+                    yield tidy(c)
+            for n, (k, ds) in enumerate(ld["deps"]):
+                for d in ds:
+                    c = copy.deepcopy(case)
+                    c["loads"][j]["deps"][n] = [k, [y for y in ds if y != d]]
+                    yield tidy(c)
+            if ld.get("how") or ld.get("probe"):
+                c = copy.deepcopy(case)
+                c["loads"][j]["how"], c["loads"][j]["probe"] = [], []
+                yield tidy(c)
+        if case.get("prov", "exact") != "exact":
+            c = copy.deepcopy(case)
+            c["prov"] = "exact"
+            yield tidy(c)
+
+    def gen_hist(self, rng):
+        """a history of loads with one meta-model: with / without a global repository, library files registered
+        with a GlobalRepo provider (main models from strings or files) or imported (main models from files),
+        every load its own dependency structure (about half of them unresolvable), waits reaching into the library"""
+        glob = rng.chance(0.6)
+        nlibs = rng.weighted([(0, 1), (1, 4), (2, 2)]) if glob else rng.weighted([(0, 1), (1, 3), (2, 2)])
+        libs, lib_ids = [], []
+        profile = rng.weighted([("mixed", 4), ("lists", 3), ("scalar", 3)])
+        if nlibs:
+            lib_ids = list(range(rng.randint(1, 4)))
+            per = [[] for _ in range(nlibs)]
+            for i in lib_ids:
+                per[rng.below(nlibs)].append(i)
+            libs = [{"elems": self.pack(rng, per[i], profile)} for i in range(nlibs)]
+        ldeps = self.gen_deps(rng, lib_ids, rng.chance(0.75)) if lib_ids else {}
+        ldeps = {k: [d if d in lib_ids else 900 + d % 3 for d in ds] for k, ds in ldeps.items()}
+        case = {"kind": "hist", "global": rng.chance(0.7), "loader": "glob" if glob else "import",
+                "prov": rng.choice(["exact", "attr", "cls"]), "libs": libs,
+                "deps": [[k, ldeps[k]] for k in sorted(ldeps)],
+                "how": [[k, "a"] for k in sorted(ldeps) if rng.chance(0.3)], "loads": []}
+        for j in range(rng.randint(2, 4)):
+            ids = [20 * (j + 1) + k for k in range(rng.randint(1, 5))]
+            deps = self.gen_deps(rng, ids, rng.chance(0.45))
+            deps = {k: [d if d in ids else 900 + d % 3 for d in ds] for k, ds in deps.items()}
+            for k in ids:
+                if lib_ids and rng.chance(0.3):
+                    deps[k] = deps.get(k, []) + rng.sample(lib_ids, rng.randint(1, min(2, len(lib_ids))))
+            ld = {"main": "str" if (glob or not nlibs) and rng.chance(0.65) else "file",
+                  "deps": [[k, deps[k]] for k in sorted(deps)], "elems": self.pack(rng, ids, profile)}
+            ask = rng.weighted([("value", 4), ("a", 2), ("o", 1), ("r", 1), ("each", 2)])
+            if ask != "value":
+                tmp = {"deps": ld["deps"], "files": [{"imports": [], "elems": ld["elems"]}]}
+                self.gen_how(rng, tmp, ask)
+                ld["how"] = tmp.get("how", [])
+                if tmp.get("probe"):
+                    ld["probe"] = tmp["probe"]
+            case["loads"].append(ld)
+        # a library reference may wait for a reference of one of the main models: in that load it resolves, in the
+        # loads without that main model it never does (whatever an earlier load did to the library file)
+        if lib_ids and rng.chance(0.2):
+            k = rng.choice(lib_ids)
+            ld = rng.choice(case["loads"])
+            tab = {i: ds for i, ds in case["deps"]}
+            tab[k] = tab.get(k, []) + [rng.choice(sorted(file_refs({"elems": ld["elems"]})))]
+            case["deps"] = [[i, tab[i]] for i in sorted(tab)]
+        return case
+
     def nontrivial(self, case, obs):
+        if case.get("kind") == "hist":
+            return any(o.get("postponed", 0) > 0 for o in obs.get("loads", []))
         return obs.get("postponed", 0) > 0
 
     def extra_evidence(self, cases, obs, model_outs):
         """how often the territory of the list theorems was reached"""
         with_lists = inverted = shared = 0
+        everything = list(zip(cases, obs))
+        libc = [(c, o) for c, o in everything if c.get("kind") == "lib" and isinstance(o, dict)]
+        hist = [(c, o) for c, o in everything if c.get("kind") == "hist" and isinstance(o, dict) and "loads" in o]
+        cases = [c for c, _ in everything if not c.get("kind")]
+        obs = [o for c, o in everything if not c.get("kind")]
         for c, o in zip(cases, obs):
             if not isinstance(o, dict) or o.get("outcome") != "ok":
                 continue
@@ -944,7 +1348,20 @@ class Prop(Check):
         return {"loads_with_lists": with_lists, "loads_with_list_resolved_out_of_textual_order": inverted,
                 "of_these_with_another_list_of_the_same_class_in_the_file": shared,
                 "loads_with_providers_asking_the_resolver": asking, "of_these_asking_about_another_model_file": cross,
-                "of_these_asking_about_a_list_left_partly_resolved": partial, "loads_with_rrel_walks": walks}
+                "of_these_asking_about_a_list_left_partly_resolved": partial, "loads_with_rrel_walks": walks,
+                "loads_with_library_providers": len(libc),
+                "of_these_postponed_by_the_library": sum(1 for _, o in libc if o.get("postponed", 0) > 0),
+                "of_these_unresolvable": sum(1 for _, o in libc if o.get("outcome") == "unresolvable"),
+                "histories": len(hist),
+                "histories_with_a_load_after_a_failed_one": sum(
+                    1 for _, o in hist if any(x.get("outcome") != "ok" for x in o["loads"][:-1])),
+                "of_these_global_repository_and_string_model": sum(
+                    1 for c, o in hist if c.get("global") and any(
+                        x.get("outcome") != "ok" and l.get("main") == "str"
+                        for x, l in list(zip(o["loads"], c["loads"]))[:-1])),
+                "histories_with_a_load_finding_library_files_finished": sum(
+                    1 for c, o in hist if c.get("global") and c.get("libs") and any(
+                        x.get("outcome") == "ok" for x in o["loads"][:-1]))}
 
     # ------------------------------------------------------------------ shrinking
     @staticmethod
@@ -982,6 +1399,15 @@ class Prop(Check):
         return out
 
     def shrink(self, case):
+        if case.get("kind") == "lib":
+            yield from c09_lib.shrink(case)
+            return
+        if case.get("kind") == "hist":
+            yield from self.hist_shrink(case)
+            return
+        yield from self.load_shrink(case)
+
+    def load_shrink(self, case):
         files = [{"imports": f["imports"], "elems": file_elems(f)} for f in case["files"]]
         prov = case.get("prov", "exact")
         how = [[k, h] for k, h in case.get("how", []) if h != "v"]
